@@ -31,6 +31,8 @@ type delayBackend struct {
 	mu  sync.Mutex
 	rng *rand.Rand
 	max int // microseconds
+	// pre, if set, runs before a pack file is handed to the wrapped backend
+	pre func(h backend.Handle)
 }
 
 func (d *delayBackend) Save(ctx context.Context, h backend.Handle, rd backend.RewindReader) error {
@@ -42,6 +44,9 @@ func (d *delayBackend) Save(ctx context.Context, h backend.Handle, rd backend.Re
 	d.mu.Unlock()
 	if us > 0 {
 		time.Sleep(time.Duration(us) * time.Microsecond)
+	}
+	if d.pre != nil && h.Type == backend.PackFile {
+		d.pre(h)
 	}
 	return d.Backend.Save(ctx, h, rd)
 }
@@ -193,6 +198,21 @@ func c44RepoCase(h *H, sub string, heavyDup bool) {
 	}
 	var mu sync.Mutex
 	var sessErr error
+	// "uploaded, then indexed": when a pack is about to be written to the backend the master index
+	// must not list it yet
+	var early []string
+	db.pre = func(bh backend.Handle) {
+		for _, c := range conts {
+			for _, pb := range repo.LookupBlob(restic.BlobHandle{ID: c.id, Type: c.t}) {
+				if pb.PackID().String() == bh.Name {
+					mu.Lock()
+					early = append(early, bh.Name[:10])
+					mu.Unlock()
+					return
+				}
+			}
+		}
+	}
 	panicked, pmsg := Protect(func() {
 		sessErr = repo.WithBlobUploader(ctx, func(ctx context.Context, up restic.BlobSaverWithAsync) error {
 			if syncMode {
@@ -239,6 +259,9 @@ func c44RepoCase(h *H, sub string, heavyDup bool) {
 	for i, c := range calls {
 		h.Rec("call", Itoa(i), c44Handle(conts[c.c], c.c), Itoa(len(conts[c.c].data)), B(c.dup), B(c.known), c44ErrTok(c.err), B(c.done))
 	}
+	db.pre = nil
+	sort.Strings(early)
+	h.Rec("early", early...)
 	if sessErr != nil {
 		h.Rec("sess", "1", HexS(sessErr.Error()))
 	} else {
